@@ -1,6 +1,7 @@
 package main
 
 import (
+	"strings"
 	"bytes"
 	"context"
 	"fmt"
@@ -81,20 +82,45 @@ func vRestoreOutcome(t testing.TB, files map[backend.Handle][]byte, id string, w
 	err = e.run("restore", nil, func(ctx context.Context, g global.Options) error {
 		return runRestore(ctx, RestoreOptions{Target: target}, g, g.Term, []string{id})
 	})
-	if err != nil {
+	// "fail for the affected data": restore names every item it could not restore ("ignoring error for <item>:")
+	// and ends with "There were N errors"; any other error is a failure of the restore as a whole
+	var reported []string
+	for _, line := range strings.Split(e.lastErr, "\n") {
+		if i := strings.Index(line, "ignoring error for "); i >= 0 {
+			rest := line[i+len("ignoring error for "):]
+			if j := strings.Index(rest, ": "); j >= 0 {
+				reported = append(reported, rest[:j])
+			}
+		}
+	}
+	if err != nil && !(strings.Contains(err.Error(), "There were") && len(reported) > 0) {
 		return "fail"
+	}
+	covered := func(p string) bool {
+		for _, loc := range reported {
+			if loc == p || loc == "/" || strings.HasPrefix(p, strings.TrimSuffix(loc, "/")+"/") {
+				return true
+			}
+		}
+		return false
 	}
 	for p, w := range want {
 		if len(w) < 5 || w[:5] != "file:" {
 			continue
 		}
 		b, rerr := os.ReadFile(filepath.Join(target, p))
-		if rerr != nil {
+		if rerr != nil || "file:"+vSha(b) != w {
+			if err != nil && covered(p) {
+				continue // reported as not restored
+			}
+			if err != nil {
+				return "different-unreported"
+			}
 			return "different"
 		}
-		if "file:"+vSha(b) != w {
-			return "different"
-		}
+	}
+	if err != nil {
+		return "fail"
 	}
 	return "same"
 }
@@ -117,6 +143,12 @@ func TestVerif_C03(t *testing.T) {
 			if _, err := l.exec(op); err != nil {
 				res.Problem("scenario %d: %s: %v", seed, op, err)
 			}
+		}
+		// a snapshot whose files consist of several blobs and share blobs with each other
+		if cid, cwant, cerr := vCraftSharedChunks(l.e, r); cerr != nil {
+			res.Problem("scenario %d: shared chunks: %v", seed, cerr)
+		} else {
+			l.want[cid] = cwant
 		}
 		dup := si%2 == 1
 		if dup {
@@ -230,7 +262,7 @@ func TestVerif_C03(t *testing.T) {
 				for _, id := range sortedKeys(reads) {
 					outcomes = append(outcomes, reads[id])
 				}
-				if nrec%9 == 0 {
+				if nrec%9 == 0 || (s.class == "pack-data-blob" && nrec%2 == 0) {
 					ids := sortedKeys(reads)
 					id := ids[r.Intn(len(ids))]
 					outcomes = append(outcomes, vRestoreOutcome(t, files, id, l.want[id], false))
